@@ -122,7 +122,8 @@ func renderNode(w io.Writer, node *html.Node, indent int) error {
 func renderNodeWithContext(ctx VueContext, w io.Writer, node *html.Node, indent int) error {
 	switch node.Type {
 	case html.TextNode:
-		if strings.TrimSpace(node.Data) == "" {
+		// only HTML whitespace is insignificant: a non-breaking space (&nbsp;) is content
+		if strings.Trim(node.Data, " \t\n\r\f") == "" {
 			return nil
 		}
 		spaces := getIndent(indent)
